@@ -20,11 +20,14 @@ RULE = ("SetFloat64 over float64 bit patterns: every biased exponent 0..2047 x m
         "precisions 0..2000 x six modes x previous contents of the target; Float64/Float32 over Decimals at binade and decade "
         "crossings, at binary64/binary32 mid-points +- 10^-k (the double-rounding trap), at the overflow and underflow thresholds "
         "and on the images of SetFloat64; distinct = different program text; non-trivial = a finite non-zero value is converted")
-EXPLANATION = ("Props/C15.v proves the special-value behaviour of SetFloat64 and refutes 'Float64 returns the nearest value' with a "
-               "computed witness (K2); the run ties the model (pow2/floatPow5 loops, every intermediate rounding, math/big modelled as "
-               "correctly rounded) bit for bit to the code and judges the implementation's outputs with an independent exact-rational "
-               "oracle: exactness when the precision holds the full expansion, <= 1 ulp (SetFloat64) / <= 32 ulps (SetFloat, Float), "
-               "nearest-or-not with accuracy sign for Float64/Float32")
+EXPLANATION = ("Props/C15.v proves, on the model: the special-value behaviour and the receiver attributes of SetFloat64/SetFloat; that "
+               "SetFloat64 is correctly rounded on the binade [2^52,2^53) and stores EVERY finite float64 exactly (Exact accuracy, "
+               "canonical) when the value has at most p digits and 2^|exp2| fits p+1 digits (pow2's loop is then exact at every "
+               "step); it refutes the unrestricted exactness clause (K8) and 'Float64 returns the nearest value with the right "
+               "accuracy' (K2) with computed witnesses.  The run ties the model (pow2/floatPow5 loops, every intermediate rounding, "
+               "math/big modelled as correctly rounded) bit for bit to the code and judges the implementation's outputs with an "
+               "independent exact-rational oracle: exactness when the precision holds the full expansion, <= 1 ulp (SetFloat64) / "
+               "<= 32 ulps (SetFloat, Float), nearest-or-not with accuracy sign for Float64/Float32")
 ASSUMPTIONS = ["operands well-formed (C08)", "natural-number routines exact (C06) and word kernels correct (C07)",
                "math/big.Float operations (SetInt, SetMantExp, Mul, Quo, SetPrec, Float64, Float32) are correctly rounded",
                "float64 multiplication and math.Ceil are IEEE-754 (precision defaulting only)"]
@@ -298,8 +301,8 @@ def check_decimal_image(z1, neg, V, p, mode, tol, st, key, scale_digits):
         st[key + "_exact_required"] += 1
         if got != V:
             msg = "precision %d holds the full %d-digit expansion but the stored value differs" % (p, D)
-            u = Fraction(10) ** (int(z1[5]) - p)
-            if scale_digits > p + 1 and abs(got - V) <= tol * u:
+            ue = int(z1[5]) - p                       # unit in the last place = 10^ue (p can be MaxPrec: never materialise 10^-p)
+            if scale_digits > p + 1 and ue > -10000 and abs(got - V) <= tol * Fraction(10) ** ue:
                 # shape re-evaluated: the value fits, the scaling operands (2^|exp2| / integer mantissa) do not fit
                 # the working precision p+1, and the error stays within the documented bound
                 st[key + "_inexact_scale"] = st.get(key + "_inexact_scale", 0) + 1
